@@ -324,6 +324,15 @@ func (w *lsWalker) expr(e ast.Expr, st lsState, mode string) {
 				}
 			}
 		}
+		if sel, ok := x.Fun.(*ast.SelectorExpr); ok {
+			if ms, ok := w.info.Selections[sel]; ok && ms.Kind() == types.MethodVal {
+				if typ := namedOf(ms.Recv()); lockTracked[typ] != nil {
+					// a call into another function of a tracked type: its critical sections add to this function's
+					w.ord++
+					w.out = append(w.out, lsAccess{typ: typ, field: typ + "." + ms.Obj().Name(), fn: w.fn, acc: "call", held: "none", ord: w.ord})
+				}
+			}
+		}
 		w.expr(x.Fun, st, "read")
 		w.exprs(x.Args, st, "escape")
 	default:
@@ -604,6 +613,19 @@ func genRegistryLocks(root *pkgSrc) {
 			}
 		}
 	}
+	var calls []lsAccess
+	{
+		var acc []lsAccess
+		for _, a := range all {
+			if a.acc == "call" {
+				calls = append(calls, a)
+			} else {
+				acc = append(acc, a)
+			}
+		}
+		all = acc
+	}
+	fnFacts := lsFunctionFacts(all, calls)
 	sort.SliceStable(all, func(i, j int) bool {
 		a, b := all[i], all[j]
 		if a.typ != b.typ {
@@ -685,8 +707,120 @@ func genRegistryLocks(root *pkgSrc) {
 		}
 		fmt.Fprintf(&b, "  (%s, %s)%s  -- %s.%s\n", leanText(f[0]), leanText(f[1]), sep, f[0], f[1])
 	}
+	b.WriteString("]\n\n/-- Per function and guarding mutex: how many separate critical sections (its own and, transitively, those of the\n    functions of the tracked types it calls; an unlocked access counts as one) touch the fields under that mutex, and\n    whether any of them writes: ⟨owner type, mutex, function, sections, writes⟩. -/\n")
+	b.WriteString("def registryFunctions : List FnFact := [\n")
+	for i, f := range fnFacts {
+		sep := ","
+		if i == len(fnFacts)-1 {
+			sep = ""
+		}
+		fmt.Fprintf(&b, "  ⟨%s, %s, %s, %d, %s⟩%s  -- %s.%s in %s: %d section(s)%s\n", leanText(f.typ), leanText(f.mutex), leanText(f.fn), f.sections, leanBool(f.writes), sep,
+			f.typ, f.mutex, f.fn, f.sections, map[bool]string{true: ", writes", false: ""}[f.writes])
+	}
 	b.WriteString("]\n\nend Mcp.Gen\n")
 	writeIfChanged("RegistryLocks.lean", b.String())
+}
+
+type lsFnFact struct {
+	typ, mutex, fn string
+	sections       int
+	writes         bool
+}
+
+// lsFunctionFacts sums, per function and (type, mutex), the critical sections of the function itself and of the
+// functions of tracked types it calls (transitively; a cycle counts as "many").
+func lsFunctionFacts(accs, calls []lsAccess) []lsFnFact {
+	type key struct{ typ, mutex string }
+	type sum struct {
+		n      int
+		writes bool
+	}
+	own := map[string]map[key]map[int]int{} // fn -> key -> section id -> count (section 0: every access separately)
+	ownW := map[string]map[key]bool{}
+	for _, a := range accs {
+		if a.init {
+			continue
+		}
+		mu, ok := lockTracked[a.typ][a.field]
+		if !ok {
+			mu = "?"
+		}
+		k := key{a.typ, mu}
+		if own[a.fn] == nil {
+			own[a.fn] = map[key]map[int]int{}
+			ownW[a.fn] = map[key]bool{}
+		}
+		if own[a.fn][k] == nil {
+			own[a.fn][k] = map[int]int{}
+		}
+		own[a.fn][k][a.sect]++
+		if a.acc != "read" {
+			ownW[a.fn][k] = true
+		}
+	}
+	callees := map[string][]string{}
+	for _, c := range calls {
+		callees[c.fn] = append(callees[c.fn], c.field)
+	}
+	memo := map[string]map[key]sum{}
+	visiting := map[string]bool{}
+	var total func(fn string) map[key]sum
+	total = func(fn string) map[key]sum {
+		if r, ok := memo[fn]; ok {
+			return r
+		}
+		r := map[key]sum{}
+		if visiting[fn] {
+			return r
+		}
+		visiting[fn] = true
+		for k, secs := range own[fn] {
+			n := 0
+			for id, cnt := range secs {
+				if id == 0 {
+					n += cnt
+				} else {
+					n++
+				}
+			}
+			r[k] = sum{n, ownW[fn][k]}
+		}
+		for _, c := range callees[fn] {
+			for k, v := range total(c) {
+				o := r[k]
+				r[k] = sum{o.n + v.n, o.writes || v.writes}
+			}
+		}
+		visiting[fn] = false
+		memo[fn] = r
+		return r
+	}
+	fns := map[string]bool{}
+	for fn := range own {
+		fns[fn] = true
+	}
+	for fn := range callees {
+		fns[fn] = true
+	}
+	var out []lsFnFact
+	for fn := range fns {
+		for k, v := range total(fn) {
+			if v.n > 0 {
+				out = append(out, lsFnFact{k.typ, k.mutex, fn, v.n, v.writes})
+			}
+		}
+	}
+	sort.Slice(out, func(i, j int) bool {
+		a, b := out[i], out[j]
+		if a.typ != b.typ {
+			return a.typ < b.typ
+		}
+		if a.fn != b.fn {
+			return a.fn < b.fn
+		}
+		return a.mutex < b.mutex
+	})
+	return out
 }
 
 // lsImporter resolves nothing: the facts only need the package's own struct types; imported identifiers stay
